@@ -603,6 +603,18 @@ func (e *vbEnv) startManager() error {
 				if berr != nil {
 					best = vbERR
 				}
+				// ... and a subscriber registering right now from a non-zero
+				// height below the tip (the subscription handler asks on the
+				// goroutine that takes the events, like this observer): the
+				// request must be answered while the batch / the rollback is
+				// still being announced. During a rollback the range may be
+				// changing under the read, so only the return is needed there.
+				if berr == nil && bestNow >= 2 {
+					_, _, nerr := bm.NotificationsSinceHeight(bestNow - 1)
+					if _, isConn := n.(*blockntfns.Connected); isConn && nerr != nil {
+						best = vbERR
+					}
+				}
 				var rec []int
 				switch m := n.(type) {
 				case *blockntfns.Connected:
